@@ -41,10 +41,10 @@ def groups(cols, by, n):
 
 def unchanged(d, cols): return list(d.keys()) == list(cols.keys()) and all(len(d[k]) == len(cols[k]) and all(a is b for a, b in zip(d[k], cols[k])) for k in cols)
 
-def h_listby(n, mixed, two):
+def h_listby(n, mixed, two, rev = False):
     def h(c):
         import pyg_base._sort as S
-        d, cols = table(c, n, mixed, two); by = ['k', 'j'] if two else ['k']
+        d, cols = table(c, n, mixed, two); by = (['j', 'k'] if rev else ['k', 'j']) if two else ['k']
         gs = groups(cols, by, n)
         c.cover('duplicate-keys', len(gs) < n) if n >= 2 else None
         r = d.listby(*by)
@@ -119,6 +119,7 @@ def obligations(tier):
     for n in range(N + 1):
         obs.append(Ob('listby.int.%d' % n, h_listby(n, False, False), setup = setup, budget_s = 300 if n < 4 else 1500, desc = 'listby/unlist on %d rows, int key' % n))
         obs.append(Ob('listby.two-keys.%d' % n, h_listby(n, False, True), setup = setup, budget_s = 300 if n < 4 else 1500, desc = 'listby/unlist on %d rows, two key columns' % n))
+        if n >= 2: obs.append(Ob('listby.two-keys-reversed.%d' % n, h_listby(n, False, True, True), setup = setup, budget_s = 300 if n < 4 else 1500, desc = 'listby/unlist on %d rows, two key columns given in the reverse of the column order' % n))
         obs.append(Ob('groupby.int.%d' % n, h_groupby(n, False), setup = setup, budget_s = 300 if n < 4 else 1500, desc = 'groupby/ungroup on %d rows, int key' % n))
         for a in range(3):
             if n: obs.append(Ob('pivot.%d.agg%d' % (n, a), h_pivot(n, a), setup = setup, budget_s = 300 if n < 4 else 1500, desc = 'pivot/unpivot on %d rows, aggregation %s' % (n, ['none', 'len', 'sum'][a])))
